@@ -664,6 +664,13 @@ func (f *frame) applyContract(at ssa.Instruction, ct *Contract, args []T, st *St
 		if tags == nil {
 			tags = f.root.tags
 		}
+		if tags == nil && !f.root.nopanic {
+			// a root without a nopanic clause claims only its tagged clauses: callee preconditions are assumed
+			// (and listed), exactly like the language-level safety conditions
+			e.assumed["callee preconditions not checked in "+f.root.ct.Rel+" (no nopanic clause)"] = true
+			e.assume(implies(st.cond, t))
+			continue
+		}
 		e.addOb("pre", short+":"+r.Text+"|"+a, tags, pos, st.cond, t)
 	}
 	if f.root.nopanic && !ct.NoPanic && !ct.Trusted && !ct.IsIface {
